@@ -62,6 +62,16 @@ def gen_cases(tier, seed):
                         {"op": "desc_get"}]
                 for v in vals[:5]:
                     ops += [{"op": "setraw", "v": v}, {"op": "desc_get"}]
+                # the text of a described value is replaced after descriptions have been written, and one more
+                # value gets a description: the new texts name their values, the replaced one names nothing
+                free = [x for x in range(lo, hi + 1) if x not in vals]
+                ops += [{"op": "redesc", "val": vals[0], "name": "renamed"}, {"op": "desc_set", "name": "renamed"},
+                        {"op": "desc_get"}, {"op": "desc_set", "name": descs[0][1]}, {"op": "desc_get"}]
+                if free:
+                    ops += [{"op": "redesc", "val": free[len(cases) % len(free)], "name": "one more"},
+                            {"op": "desc_set", "name": "one more"}, {"op": "desc_get"}]
+                if len(vals) > 1:
+                    ops += [{"op": "desc_set", "name": descs[1][1]}, {"op": "desc_get"}]
                 cases.append({"kind": kind, "t": t, "fn": fn, "fd": fd, "descs": descs, "bitdefs": [], "ops": ops,
                               "fn_api": len(cases) % 2 == 1, "arr_member": kind == "sdo" and len(cases) % 3 == 0})
     # bit fields: every contiguous range within the type's width, four spellings
